@@ -23,11 +23,11 @@ def atoms_info(exe):
     return json.loads(so)
 
 
-def generate(tier, nfixed, nsim):
+def generate(tier, nfixed, nsim, natoms=NATOMS):
     """(A)+(B): TLC enumerates the exhaustive layer (checking that every case is a
     well-formed model and that the layer covers every operator / kind) and draws the
     simulated layer."""
-    env = {"NATOMS": NATOMS, "NFIXED": nfixed, "NSIM": nsim}
+    env = {"NATOMS": natoms, "NFIXED": nfixed, "NSIM": nsim}
     with cf.ThreadPoolExecutor(max_workers=2) as ex:
         f1 = ex.submit(tlc, "GenNL", "GenNL.cfg", NL, dict(env, GENMODE="exh"), 1)
         f2 = ex.submit(tlc, "GenNL", "GenNLSim.cfg", NL, dict(env, GENMODE="sim"), 1, 1, nsim + 1, seed())
@@ -36,7 +36,7 @@ def generate(tier, nfixed, nsim):
     tlc_must_pass(sim, "GenNL (simulated layer)")
     cases = printed_json(exh, "CASE")
     simc = printed_json(sim, "CASE")
-    if len(cases) < 300 or len(simc) != nsim:
+    if len(cases) < 150 or len(simc) != nsim:
         raise Broken("GenNL produced %d + %d cases" % (len(cases), len(simc)))
     for c in simc:
         c["id"] += 100000
@@ -52,7 +52,8 @@ def crash_key(e):
     s = e.get("stderr", "") or e.get("what", "")
     m = re.search(r"([\w.-]+\.(?:cc|h|hpp)):(\d+):\d+: runtime error: ([^\n]{0,60})", s)
     if m:
-        return "ubsan:%s:%s:%s" % (m.group(1), m.group(2), re.sub(r"[^A-Za-z0-9]+", "_", m.group(3)).strip("_")[:40])
+        what = re.sub(r"[^A-Za-z]+", "_", re.sub(r"-?\d+", "", m.group(3))).strip("_")[:40]
+        return "ubsan:%s:%s:%s" % (m.group(1), m.group(2), what)
     m = re.search(r"ERROR: AddressSanitizer: ([\w-]+)", s)
     if m:
         fr = re.search(r"#\d+ 0x[0-9a-f]+ in (\S+) [^\n]*?([\w.-]+\.(?:cc|h|hpp)):(\d+)", s)
@@ -120,6 +121,13 @@ def run(tier):
         results = list(ex.map(run_chunk, range(nchunks)))
 
     v = Verdict(PID)
+    found = {}          # key -> [description, payload, count]: one VIOLATION per distinct key
+
+    def report(key, desc, payload):
+        if key in found:
+            found[key][2] += 1
+        else:
+            found[key] = [desc, payload, 1]
     nexec = states = trans = nbad = 0
     seen_exec = set()
     for trace, lines, ne, res in results:
@@ -136,12 +144,12 @@ def run(tier):
             fam = family(b["tag"])
             line = tl[b["line"] - 1]
             if w["k"] == "event":
-                v.violation("crash:%s@%s" % (crash_key(line), fam),
+                report("crash:%s@%s" % (crash_key(line), fam),
                             "case %s (%s): harness/writer/reader died: %s" % (b["id"], b["tag"], json.dumps(line)[:700]),
                             {"case": bycase.get(b["id"]), "record": line})
                 continue
             if w["k"] != "exec":
-                v.violation("%s:%s@%s" % (w["k"], w.get("why", ""), fam), "rejected: " + json.dumps(w)[:300], w)
+                report("%s:%s@%s" % (w["k"], w.get("why", ""), fam), "rejected: " + json.dumps(w)[:300], w)
                 continue
             cfgd = "fmt=%s comments=%s boundsfirst=%s colsizes=%s readflags=%s" % (
                 "binary" if w["fmt"] else "text", w["comments"], w["bf"], w["cs"], w["rf"])
@@ -161,7 +169,7 @@ def run(tier):
                     subs = [""]
                 for s_ in subs:
                     key = "%s:%s@%s" % (k, s_, fam)
-                    v.violation(key, "model %s (case %s), %s: %s %s -- written by mp::WriteNLFile, read back by mp::ReadNLFile" %
+                    report(key, "model %s (case %s), %s: %s %s -- written by mp::WriteNLFile, read back by mp::ReadNLFile" %
                                 (b["tag"], b["id"], cfgd, k, s_),
                                 {"case": bycase.get(b["id"]), "config": cfgd, "problem": p,
                                  "events": line.get("evs", [])[:400]})
@@ -171,6 +179,9 @@ def run(tier):
                if (c["id"], q, f) not in seen_exec]
     if missing:
         raise Broken("%d planned executions missing from the trace, e.g. %s" % (len(missing), missing[:3]))
+    for key in sorted(found):
+        desc, payload, cnt = found[key]
+        v.violation(key, "[%s] %s (%d execution(s))" % (key, desc, cnt), payload)
     rcode, nnew = v.finish()
     fams = {}
     for c in cases:
